@@ -154,11 +154,19 @@ func (g *clGen) node(parent, depth int) {
 		case 0:
 			w := []int{10, 100, 600, 3000}[t.Choose(4)]
 			// (variants decided from what the tape has already produced, without drawing from it)
-			switch core.HashString(fmt.Sprintf("%d|%d|%d", id, i, g.b.Len())) % 7 {
+			switch core.HashString(fmt.Sprintf("%d|%d|%d", id, i, g.b.Len())) % 9 {
 			case 0: // the work is done under xpcall / pcall: a limit reached in there still ends the context
 				g.ln(`emit("xp", %d, xpcall(function() work(%d) return "x%d" end, function(e) return e end), runtime.context().status)`, id, w, id)
 			case 1:
 				g.ln(`emit("xp", %d, pcall(function() work(%d) return "p%d" end), runtime.context().status)`, id, w, id)
+			case 4: // one big request under xpcall / pcall: if it does not fit, the context ends, not just the call
+				g.ln(`emit("xp", %d, xpcall(function() keep[#keep + 1] = ("x"):rep(%d) return "m%d" end, function(e) return e end), runtime.context().status)`, id, w*40, id)
+			case 5: // the context is killed from inside xpcall
+				if w == 10 {
+					g.ln(`emit("xp", %d, xpcall(function() runtime.killcontext() return "k%d" end, function(e) return e end), runtime.context().status)`, id, id)
+				} else {
+					g.ln(`emit("xp", %d, pcall(function() keep[#keep + 1] = ("y"):rep(%d) return "n%d" end), runtime.context().status)`, id, w*40, id)
+				}
 			case 2: // ... in the __close handler of a coroutine that dies by an error
 				g.ln(`do local co = coroutine.wrap(function() local x <close> = setmetatable({}, {__close = function() work(%d) end}) error("die%d", 0) end) emit("cod", %d, pcall(co), runtime.context().status) end`, w, id, id)
 			case 3: // ... in the __close handler of a suspended coroutine that is closed
